@@ -30,6 +30,17 @@ Theorem C04_literal_scanner :
 Proof. exact lit_text. Qed.
 Print Assumptions C04_literal_scanner.
 
+(* the same scanner between quotes (attribute values): everything up to the closing quote of the same
+   kind is literal -- braces, brackets, operators, `*`, white space, the other quote.
+   _partial: scanner level; the composition tokenize+parse+convert is proved for element text
+   (C04_text_literal), for attribute values it is covered by the correspondence and the oracle. *)
+Theorem C04_quoted_scanner_partial :
+  forall (T : str) (q : char) (prev : option char) (attr e : Z) (rest : str),
+    is_quote q = true -> qpayload q T = true ->
+    lit (Some q) attr 0 e prev false (T ++ q :: rest) = (unescape T, length T, e).
+Proof. exact lit_quoted. Qed.
+Print Assumptions C04_quoted_scanner_partial.
+
 (* (2) the tokens of `name{T}`: name, `{`, leading white space, ONE literal holding the rest, `}` *)
 Theorem C04_tokenize_text :
   forall (name T : str), name_ok name -> bal 0 T = true ->
